@@ -362,7 +362,7 @@ func (g G) drawFault(label string, pct int) string {
 	if !g.chance(label+".on", pct) {
 		return ""
 	}
-	return g.pick(label+".kind", "err", "err", "err", "nil_record", "key_without_cert", "cert_without_key", "empty_cert")
+	return g.pick(label+".kind", "err", "err", "err", "nil_record", "key_without_cert", "cert_without_key", "empty_cert", "partial_err")
 }
 
 // boundaryAdvance draws a clock advance with point masses on interesting instants.
@@ -399,8 +399,18 @@ func (g G) planC01() *Plan {
 	for i := 0; i < npre; i++ {
 		sp := g.intn(fmt.Sprintf("pre%d.sp", i), len(p.World.SPs))
 		acs := p.World.SPs[sp].ACS[0]
-		p.World.Presessions = append(p.World.Presessions, Preseed{SP: sp, AuthRequestID: "_pre" + sessionMarker(900+i), RelayState: "relay" + sessionMarker(900+i),
-			ACS: acs.URL, Binding: g.pick(fmt.Sprintf("pre%d.b", i), BindPost, BindRedirect), Done: g.chance(fmt.Sprintf("pre%d.done", i), 50), User: g.intn(fmt.Sprintf("pre%d.u", i), 3)})
+		ps := Preseed{SP: sp, AuthRequestID: "_pre" + sessionMarker(900+i), RelayState: "relay" + sessionMarker(900+i),
+			ACS: acs.URL, Binding: g.pick(fmt.Sprintf("pre%d.b", i), BindPost, BindRedirect), Done: g.chance(fmt.Sprintf("pre%d.done", i), 50), User: g.intn(fmt.Sprintf("pre%d.u", i), 3)}
+		// stored requests of unusual shape: no consumer URL, a binding the IdP cannot serve, a duplicate AuthnRequest ID
+		switch g.weighted(fmt.Sprintf("pre%d.shape", i), 70, 12, 10, 8) {
+		case 1:
+			ps.ACS = ""
+		case 2:
+			ps.Binding = g.pick(fmt.Sprintf("pre%d.oddb", i), BindArtifact, "", "urn:example:binding:unknown")
+		case 3:
+			ps.AuthRequestID = "_pre" + sessionMarker(900)
+		}
+		p.World.Presessions = append(p.World.Presessions, ps)
 	}
 	n := g.rng("nsteps", 3, 40)
 	faultPct := g.pick("faultPct", "0", "0", "10", "25")
